@@ -86,8 +86,12 @@ def gen_history(rng, lang, n):
             ops.append(['newgraph'])
         elif r < 0.8:
             ops.append(['factory'])
-        elif r < 0.95:
+        elif r < 0.90:
             ops.append(['attackgraph', rng.randrange(10 ** 6)])
+        elif r < 0.94:
+            ops.append(['other-language', rng.randrange(10 ** 6)])
+        elif r < 0.97:
+            ops.append(['ag-reuse', rng.randrange(10 ** 6)])
         else:
             ops.append(['ag-regen'])
     if rng.random() < 0.12:
@@ -129,6 +133,8 @@ def _check_case(case, res, count=True):
     from maltoolbox.model import Model
     from maltoolbox.attackgraph import AttackGraph
     lang = Lang(case['spec'])                      # load-time snapshot (deep copy inside)
+    keep = []                                      # language graphs of the other language (interference)
+    building_other = [False]
     given = copy.deepcopy(case['spec'])            # the dict the toolbox owns
     first = [None]
 
@@ -138,8 +144,8 @@ def _check_case(case, res, count=True):
 
     def after(token, args, kwargs, result):
         t = args[1] if len(args) > 1 else kwargs['asset_type']
-        if t not in lang.assets:
-            return
+        if t not in lang.assets or any(args[0] is x for x in keep) or building_other[0]:
+            return          # (a graph of the other language)
         want = lang.steps(t)
         if count:
             res.count('lookups-compared')
@@ -179,6 +185,13 @@ def _check_case(case, res, count=True):
                         diverge('langgraph.asset.attack_steps:links-differ-from-fold',
                                 'after %s: %s:%s leads to %s in the language graph, the folded definition leads to %s' % (
                                     step, a.name, n, [(k, [tg.asset.name + ':' + tg.name for (tg, _c) in lst]) for k, lst in sorted(s.children.items())], want_targets))
+
+        def check_assets_attrs_only(g, step):
+            for a in g.assets:
+                want = lang.steps(a.name)
+                got = g._get_attacks_for_asset_type(a.name)
+                if got != want:
+                    diverge('langgraph.steps:wrong-fold', 'after %s: steps of %s differ from the fold at %s' % (step, a.name, first_diff(want, got)))
 
         graphs = []
         try:
@@ -249,6 +262,67 @@ def _check_case(case, res, count=True):
                                         'asset %s (%s) step %s: %s' % (a2['id'], a2['type'], sn, first_diff(want[sn], node.attributes)))
                     if count:
                         res.count('attackgraph-nodes-compared-with-fold', len(ag.nodes))
+                elif op[0] == 'other-language':
+                    # another language with the same type / step names is loaded (and one that is refused) while the
+                    # graphs under test stay in use
+                    from ..stream import variant_spec, illformed_variant
+                    rng4 = random.Random(op[1])
+                    building_other[0] = True
+                    try:
+                        LanguageGraph(illformed_variant(case['spec']))
+                    except Exception:
+                        pass
+                    finally:
+                        building_other[0] = False
+                    building_other[0] = True
+                    try:
+                        other = LanguageGraph(variant_spec(case['spec'], rng4))
+                    finally:
+                        building_other[0] = False
+                    keep.append(other)
+                    if rng4.random() < 0.5:
+                        other.regenerate_graph()
+                    for t in lang.order[:2]:
+                        other._get_attacks_for_asset_type(t)
+                    for g3 in graphs:
+                        check_assets_attrs_only(g3, 'another language was loaded')
+                elif op[0] == 'ag-reuse':
+                    # one AttackGraph object is used for the other language first, then pointed at this one and regenerated
+                    from ..stream import variant_spec
+                    rng4 = random.Random(op[1])
+                    building_other[0] = True
+                    try:
+                        other = LanguageGraph(variant_spec(case['spec'], rng4))
+                    finally:
+                        building_other[0] = False
+                    keep.append(other)
+                    am = gen_amodel(rng4, lang, MCfg(max_assets=4, attackers=0.0))
+                    m_other, _o = build_real(lang, am, LanguageClassesFactory(other), Model, None)
+                    fac = LanguageClassesFactory(g)
+                    model, objs = build_real(lang, am, fac, Model, None)
+                    with cpu_budget(2 * CASE_CPU_S):
+                        ag2 = AttackGraph(other, m_other)
+                        ag2.lang_graph = g
+                        ag2.model = model
+                        ag2.regenerate_graph()
+                    rev = {id(o): a2 for a2, o in objs.items()}
+                    for n in ag2.nodes:
+                        a2 = am.asset(rev.get(id(n.asset)))
+                        want = lang.steps(a2['type']).get(n.name) if a2 else None
+                        if want is None or n.attributes != want:
+                            diverge('attackgraph.steps:node-attributes-differ-from-fold',
+                                    'an AttackGraph object used for another language before, then given this language graph and model and '
+                                    'regenerated: node %s: %s' % (n.full_name, first_diff(want, n.attributes) if want else 'step unknown to the fold'))
+                            break
+                    per = {}
+                    for n in ag2.nodes:
+                        per.setdefault(rev.get(id(n.asset)), []).append(n.name)
+                    for a2 in am.assets:
+                        if sorted(per.get(a2['id'], [])) != sorted(lang.steps(a2['type'])):
+                            diverge('attackgraph.steps:asset-exposes-other-steps',
+                                    're-used AttackGraph object: asset %s of type %s exposes %s, the fold gives %s' % (
+                                        a2['id'], a2['type'], sorted(per.get(a2['id'], [])), sorted(lang.steps(a2['type']))))
+                            break
                 elif op[0] == 'ag-regen':
                     if ag is not None:
                         with cpu_budget(CASE_CPU_S):
